@@ -45,9 +45,9 @@ CLAIMED = {
     technique="SAT-based bounded model checking (Kani/CBMC) of the real primitives with a 128-bit arithmetic oracle, and SMT (z3, QF_BV) over the MIR of the numeric kernels for kind-pair totality; native replay by concrete playback / a script call",
     design="§4 C10"),
  "C11": dict(
-    text="PARTIAL (sequences only): bounded model checking (Kani/CBMC) of the registered wrappers of bytes-ref, bytes-set!, bytes-copy, string-ref (thorough: bytes->string/utf8, integer->char) on a 2-byte vector / 3-character string with symbolic contents and full-width symbolic integer arguments: the answer is the one the mathematical sequence gives exactly for the valid indices and an error otherwise. The equal? / hashing statements of the property are NOT decided by any check.",
+    text="PARTIAL (sequences only): bounded model checking (Kani/CBMC) of the registered wrappers of bytes-ref, bytes-set!, bytes-copy, string-ref (thorough: bytes->string/utf8, integer->char) on a 2-byte vector / 3-character string with symbolic contents and full-width symbolic integer arguments: the answer is the one the mathematical sequence gives exactly for the valid indices and an error otherwise. Plus an SMT query (z3) over the decision trees of `PartialEq::eq` and `RecursiveEqualityHandler::visit` read from MIR: every kind compared by value at the top level has an arm for nested values (leaf comparison is the same at every depth). Sharing inside values (F7) and hashing are NOT decided by any check.",
     note="Measured out: the real equality handler (drop glue of 37 variants per loop iteration: >1200 s, 12 GB; harness/eq.rs kept as the record; defect F7 documented from a native reproduction only), hashing (SipHash + HAMT), lists / persistent vectors / hash maps / hash sets (1200 s timeouts), substring, make-bytes. One operation at a time, not operation sequences.",
-    technique="SAT-based bounded model checking (Kani/CBMC) of real sequence primitives through their registered wrappers against a mathematical-sequence oracle; native replay by concrete playback",
+    technique="SAT-based bounded model checking (Kani/CBMC) of real sequence primitives through their registered wrappers against a mathematical-sequence oracle, and SMT (z3, QF_BV) over MIR-extracted arm tables of the two equality matches; native replay by concrete playback / equal? on nested values through the engine",
     design="§4 C11"),
  "C15": dict(engine="mir-bmc",
     text="Bounded model checking of the stop-the-world protocol: per-thread automata are extracted from the compiler's MIR of the real functions (safepoint entry/exit, poll, stop/resume, stack enumeration, global-table swap, collection and global-definition entry points), composed with a symbolic scheduler and unrolled into a bit-vector SMT formula; the solver either shows no schedule within the bound lets a world-stopper look at a thread that is running interpreter code, or returns a schedule, which is replayed on the real engine through cfg-guarded scheduling hooks.",
